@@ -58,7 +58,7 @@ def element_task(which, cls, label):
     loop = element_body(which)
     runner = sym_obj("SequentialRunner", "runner"); session = sym_obj("Session", "session"); order = sym_obj(cls, "the_order")
     env = {"self": runner, "session": session, "order": order, "agent": sym_obj("Agent", "loop_agent")}
-    inner = [n for n in ast.walk(loop) if isinstance(n, ast.For) and n is not loop]
+    inner = [n for n in ast.walk(loop) if isinstance(n, ast.For) and n is not loop and ast.unparse(n.iter) == "logs"]
     fe = ForEachTrace(name="fills-of-the-round", modifies=HOOK_MAY_CHANGE)
 
     def assume(st):
@@ -71,7 +71,26 @@ def element_task(which, cls, label):
         sim = st.read(runner, "simulator")
         return [st.dict_has(st.read(sim, "id2agent"), st.read(elem, "buy_agent_id")), st.dict_has(st.read(sim, "id2agent"), st.read(elem, "sell_agent_id"))]
     fe.elem_facts = elem_facts
-    ex, st0, outs, obl = run_block(Q, loop.body, env, specs=handle_specs(), loops=[(n, fe) for n in inner], assume=assume, label=f"{Q}[{label},{cls}]")
+    # locals bound before the batch loop (function preamble) are evaluated from the real statements, so a value hoisted out of the loop is seen as such
+    fn = get_src().funcs[Q][0]
+    outer = find_loops(fn, target_name="orders", kind=ast.For)
+    pre_stmts = fn.body[:fn.body.index(outer[0])] if outer and outer[0] in fn.body else []
+    pre_stmts = [s_ for s_ in pre_stmts if not (isinstance(s_, ast.Expr) and isinstance(s_.value, ast.Constant))]
+    local_orders = V(("list", ("list", ("ref", cls))), z3.Const("local_orders", REF))
+
+    def setup(ex_, st_):
+        if not pre_stmts:
+            return
+        s0 = st_.copy(); s0.env = {"self": runner, "session": session, "local_orders": local_orders}
+        res = [x for x in ex_.run(pre_stmts, s0, 0) if x[1] == "fall"]
+        if len(res) != 1:
+            raise Unsupported(f"anchor-lost: preamble of {Q} is not straight-line")
+        s1 = res[0][0]
+        for k_, v_ in s1.env.items():
+            if k_ not in st_.env:
+                st_.env[k_] = v_
+        st_.heap.update(s1.heap); st_.pc[:] = s1.pc; st_.trace = []
+    ex, st0, outs, obl = run_block(Q, loop.body, env, specs=handle_specs(), loops=[(n, fe) for n in inner], assume=assume, setup=setup, label=f"{Q}[{label},{cls}]")
     sim0 = st0.read(runner, "simulator")
     o0 = order if cls == "Order" else st0.read(order, "order")
     M0 = z3.Select(st0.dict_val(st0.read(sim0, "id2market")), st0.read(o0, "market_id").term)
